@@ -91,6 +91,8 @@ def big_content(rng):
     a program may treat a region specially (all zeros; zero tail; zero head; zero run in the middle)."""
     n = rng.choice(BIG_SIZES)
     m = rng.choice(BIG_SIZES)
+    if rng.random() < 0.08:
+        n = rng.choice([1 << 20, (1 << 20) + 1, 2500000])   # around the default small-file cap
     s = rng.randrange(1, 1000)
     return rng.choice([
         [["z", n, 0]], [["r", n, s]], [["r", n, s], ["z", m, 0]], [["z", n, 0], ["r", m, s]],
@@ -108,7 +110,8 @@ def big_tree(rng, nfiles=None):
     return t
 
 
-BIG_SETTINGS = [{"H": 1000, "M": 1 << 20, "S": 100000}, {"H": 1000, "M": 16384, "S": 1000}, {"H": 3, "M": 4096, "S": 0},
+BIG_SETTINGS = [{"H": 100000, "M": 20 << 20, "S": 1 << 20},   # BackupOptions::default()
+                {"H": 1000, "M": 1 << 20, "S": 100000}, {"H": 1000, "M": 16384, "S": 1000}, {"H": 3, "M": 4096, "S": 0},
                 {"H": 1000, "M": 65536, "S": 10000}, {"H": 1000, "M": 8192, "S": 8192}, {"H": 2, "M": 20000, "S": 300001}]
 
 
